@@ -310,8 +310,9 @@ type unit struct {
 	ra      bool
 	data    [][]byte // what is passed to Write* (video: NALUs/OBUs/frame; audio: the single AU)
 	params  *videoParams
-	carries bool   // carries in-band parameter sets
-	payload []byte // expected container payload (fMP4 sample payload)
+	carries bool     // carries in-band parameter sets
+	sep     [][]byte // parameter sets written in a call of their own right before this unit (then not part of data)
+	payload []byte   // expected container payload (fMP4 sample payload)
 }
 
 func avcc(nalus [][]byte) []byte {
@@ -365,6 +366,13 @@ func buildVideoUnit(codec string, track, idx int, key bool, p *videoParams, inba
 		}
 	}
 	return
+}
+
+func paramNALUs(codec string, p *videoParams) [][]byte {
+	if codec == "h265" {
+		return [][]byte{p.vps, p.sps, p.pps}
+	}
+	return [][]byte{p.sps, p.pps}
 }
 
 func newAACTrack(sampleRate, channels int) *gohlslib.Track {
